@@ -3,26 +3,31 @@ import sys
 import vlib
 
 PID = "C15"
+# the responder's per-datagram goroutine becomes a thread of the controlled scheduler in the exchange2 part (outside an
+# execution the rewritten statement starts a plain goroutine, as before)
+REWRITES = [("pkg/registrars/dns-registrar/responder/responder.go", ["-go"])]
 INJECTS = [("harness/c15/responder_verif.go", "pkg/registrars/dns-registrar/responder/zz_verif_c15.go"),
            ("harness/c15/requester_verif.go", "pkg/registrars/dns-registrar/requester/zz_verif_c15.go"),
+           ("harness/c15/main/concurrent.go", "internal/zzverif_c15/concurrent.go"),
            ("harness/c15/main/main.go", "internal/zzverif_c15/main.go")]
 ASSUME = ["payload byte values are one fixed pattern per length; the enumerated dimension is length / shape / key pair, not content",
           "the full DNS exchange runs the real Requester and Responder over an in-memory packet pair (free-running goroutines; a 20 s stall is a harness error, not a verdict)",
+          "exchange2: the query datagrams come from real requesters parked in their read; the responder side is explored exhaustively per scenario and the clients are then handed the responses of the first explored execution",
           "requests that cannot be represented are only checked through the real query framing (send), not through RequestAndRecv, which has no timeout of its own"]
 
 
 def build():
-    return vlib.build("c15", [], INJECTS, "./internal/zzverif_c15")
+    return vlib.build("c15", REWRITES, INJECTS, "./internal/zzverif_c15")
 
 
 def run(tier, seed, t0):
     w = build()
     budget = 900 if tier == "thorough" else 120
-    args = [["-scenario", s, "-tier", tier, "-budget", str(budget)] for s in ("obfuscators", "msgformat", "names", "anypb", "exchange")]
+    args = [["-scenario", s, "-tier", tier, "-budget", str(budget)] for s in ("obfuscators", "msgformat", "names", "anypb", "exchange", "exchange2")]
     args += [["-scenario", "messages", "-tier", tier, "-budget", str(budget), "-shard", str(i), "-shards", "8"] for i in range(8)]
     res = vlib.run_workers(w, args, timeout=budget + 120, env={"GOMAXPROCS": "4"})
     vlib.finish(PID, tier, "exploration", res, t0, ASSUME,
-                "complete enumeration per encoder: 4 obfuscators x 4 key pairs x tag length 0..130 (+wrong key, freshness, representative high bits); length framing 0..300, 65534..65536, 70000; names of every encoded length 240..262; TXT 0..520, 65535, 65536; all DNS messages with 0-2 questions/answers/authorities and 0-1 additionals over a pool of 6 names; URL-less anypb for every field subset of the three params messages; full Requester<->Responder exchange for every representable request length x response lengths; non-trivial = encoder accepted the value (distinct case id)",
+                "complete enumeration per encoder: 4 obfuscators x 4 key pairs x tag length 0..130 (+wrong key, freshness, representative high bits); length framing 0..300, 65534..65536, 70000; names of every encoded length 240..262; TXT 0..520, 65535, 65536; all DNS messages with 0-2 questions/answers/authorities and 0-1 additionals over a pool of 6 names; URL-less anypb for every field subset of the three params messages; full Requester<->Responder exchange for every representable request length x response lengths; the exchange with two (thorough: three) clients whose queries arrive back to back, all interleavings of the responder's receive loop and per-datagram handlers (stateless DFS, unbounded); non-trivial = encoder accepted the value (distinct case id)",
                 seed=seed)
 
 
